@@ -1064,21 +1064,32 @@ pub fn growth_series(fam: usize, seed: u64, max_size: usize) -> Result<Vec<(usiz
     Ok(series)
 }
 
-/// Three consecutive steps each multiplying the cost by >= GROWTH_RATIO (only counting points above the noise floor).
+/// Three consecutive steps each multiplying the cost by >= GROWTH_RATIO (only counting points above
+/// the noise floor) - or two consecutive steps each multiplying it by at least twice that threshold:
+/// a change that multiplies the cost by 20 per step reaches the 60 ms stop after two measurable
+/// steps, so it never produces a third one.
 pub fn superpolynomial(series: &[(usize, u64)]) -> Option<usize> {
     let mut run = 0;
+    let mut strong_run = 0;
     for i in 1..series.len() {
         let (a, b) = (series[i - 1].1, series[i].1);
         // a step counts when the cost grew by more than ANY polynomial of degree <= 6 could over
         // the same growth in n (and by at least GROWTH_RATIO), above the measurement noise floor
         let poly6 = (series[i].0 as f64 / series[i - 1].0.max(1) as f64).powi(6);
-        if a >= GROWTH_MIN_NS / 4 && b >= GROWTH_MIN_NS && (b as f64) >= GROWTH_RATIO.max(poly6) * (a as f64) {
+        let thr = GROWTH_RATIO.max(poly6);
+        if a >= GROWTH_MIN_NS / 4 && b >= GROWTH_MIN_NS && (b as f64) >= thr * (a as f64) {
             run += 1;
-            if run >= 3 {
+            if (b as f64) >= 2.0 * thr * (a as f64) {
+                strong_run += 1;
+            } else {
+                strong_run = 0;
+            }
+            if run >= 3 || strong_run >= 2 {
                 return Some(i);
             }
         } else {
             run = 0;
+            strong_run = 0;
         }
     }
     None
